@@ -236,6 +236,18 @@ def c11_e(ctx: Ctx):
     error into 'nothing to remove' and report success while the data is still there)."""
     R = "C11-e"
     out = []
+    # the re-key decides "this job is not initialised, nothing to move" from the ENOENT of the rename itself, never from a probe of the state point file
+    sv = ctx.fn("signac.job:_StatePointDict._save")
+    for e in [x for x in ctx.effects.direct(sv) if x.kind == "rename"]:
+        facts = common.expand_facts(ctx, sv, common.facts_at(ctx, sv, e.node, "n"))
+        gate = [(t, pol) for (t, pol) in facts if pol and any(x in t for x in ("os.path.exists(", "os.path.isdir(", "os.path.lexists(", "os.path.isfile(", ".isfile(", "_contains_job_id("))]
+        k = f"{sv.qual}|rename-unconditional|{canon(e.node)[:40]}"
+        if gate:
+            out.append(ctx.viol(R, sv, e.node, f"the migration of the job directory ({e.prim}) runs only under the existence probe {gate[0][0]!r}: a stat that fails with EACCES / EIO makes an "
+                                "initialised job look uninitialised, the re-key then happens in memory only - no exception, the data stays under the old id and check() reports nothing",
+                                construct=k))
+        else:
+            out.append(ctx.ok(R, sv, e.node, f"{e.prim} of the re-key is attempted unconditionally (ENOENT of the rename means 'not initialised')", construct=k))
     for q in ("signac.job:Job.remove", "signac.job:Job.clear"):
         f = ctx.fn(q)
         dels = [e for e in ctx.effects.direct(f) if e.kind == "delete"]
